@@ -318,8 +318,10 @@ def bounded_tokens(pid, tier, seed, pids=None):
 def bounded_generated(pid, tier, seed, pids=None):
     """generated valid scripts x rendering styles, and single-token edits of them"""
     from bounded import sieve_gen as g
-    rng = random.Random(seed or 1)
-    S = g.scripts(seed or 1)
+    # deterministic on purpose (VERIF_SEED is NOT used here): the known-finding signatures pin how each listed class fails
+    # on exactly this corpus, so the corpus must not vary from run to run
+    rng = random.Random(1)
+    S = g.scripts(1)
     evals = 0
     distinct = set()
     findings = Findings()
@@ -360,8 +362,29 @@ def bounded_generated(pid, tier, seed, pids=None):
             "samples": samples, "exhaustive": False, "violations": vio}
 
 
-def counted_parse(data):
-    """real parse with a lexer-step counter (tokens yielded by Lexer.scan)"""
+class _Timeout(Exception):
+    pass
+
+
+def _alarm(signum, frame):
+    raise _Timeout()
+
+
+def counted_parse(data, seconds=3):
+    """real parse with a lexer-step counter (tokens yielded by Lexer.scan) and a wall-clock watchdog"""
+    import signal
+    old = signal.signal(signal.SIGALRM, _alarm)
+    signal.setitimer(signal.ITIMER_REAL, seconds)
+    try:
+        return _counted_parse(data)
+    except _Timeout:
+        return "hang", "no verdict within %d s for %d bytes" % (seconds, len(data)), 0, None
+    finally:
+        signal.setitimer(signal.ITIMER_REAL, 0)
+        signal.signal(signal.SIGALRM, old)
+
+
+def _counted_parse(data):
     from sievelib.parser import Parser
     p = Parser()
     real_scan = p.lexer.scan
@@ -419,7 +442,8 @@ def bounded_bytes(pid, tier, seed):
     base = [g.render(t, s) for t in g.scripts(seed or 1)[:: (12 if tier == "quick" else 3)] for s in (0, 2)]
     extra = [b"control;", b"action;", b"test;", b"unknown;", b"command;", b"require;", b"if hasflag {", b"if hasflag ,",
              "#ééééééé\nkeep \"a\";".encode(), b'keep "\xff";', b'require ["\xff"];', b"/* unterminated", b'"unterminated',
-             b"text:\nnever ends", b"if true { stop; } \xff", b"\x00", b"stop (true);", b"stop (true) header", b"",
+             b"text:\nnever ends", b"if true { stop; } \xff", b'"' + b"a" * 64, b'keep "' + b"ab\\" * 24, b"/*" + b"*a" * 40,
+             b"text:\n" + b".x\n" * 30, b"#" + b"x" * 200, b"a" * 300, b":" + b"t" * 100 + b" " * 50 + b"1" * 80 + b"K", b"\x00", b"stop (true);", b"stop (true) header", b"",
              "if header :is \"é\" \"é\" { keep } ".encode(), b"if anyof(true,) {}", b"[", b"]", b")", b"}", b";", b","]
     evals = 0
     distinct = set()
@@ -490,7 +514,8 @@ def bounded_positions(pid, tier, seed):
     findings = Findings()
     samples = []
     seps = [b"\n", b"\r\n", b" "]
-    prefixes = [b"", "# caf\xc3\xa9 \xe2\x82\xac\n".encode("latin-1")]
+    prefixes = [b"", "# caf\xc3\xa9 \xe2\x82\xac\n".encode("latin-1"),
+                b'if header :is "a\nb" "c\r\nd" { keep; }\n/* x\ny */ ']
     for toks in S:
         # where may a command start / where do arguments of a complete command end
         cmd_starts = [i for i in range(h, len(toks) + 1) if i == h or toks[i - 1] in (b";", b"{", b"}")]
@@ -531,7 +556,7 @@ def bounded_positions(pid, tier, seed):
                     if got != want or got_line != exp_line:
                         findings.note((pid, "position." + kind), data[len(pre):].decode("latin-1")[-90:],
                                       "reported %r (line %r), offending token %r is at %r" % (ep, got_line, tok, want))
-                    elif len(samples) < 3 and pre and sep == b"\r\n":
+                    elif len(samples) < 3 and pre.startswith(b"#") and sep == b"\r\n":
                         samples.append({"script_tail": data.decode("latin-1")[-70:], "offending": tok.decode(), "error_pos": list(ep)})
                     # independence from what follows the offending token
                     cut = off + len(tok)
@@ -557,6 +582,14 @@ def bounded_linecol(pid, tier, seed):
     n = 6 if tier == "quick" else 8
     evals = 0
     findings = Findings()
+    try:
+        lx.text = b"a\nb"
+        lx.pos = 2
+        lx.curlineno(), lx.curcolno()
+    except Exception as e:
+        return {"name": "line-column-arithmetic", "bound": "not applicable to this tree: curlineno/curcolno need more than (text, pos): %s; the "
+                "end-to-end error-position check decides" % e, "rule": "-", "evaluations": 1, "distinct": 2, "samples": [{"skipped": str(e)}],
+                "exhaustive": False, "violations": []}
     for ln in range(n + 1):
         for tup in itertools.product(b"a\n\r", repeat=ln):
             text = bytes(tup)
